@@ -796,7 +796,11 @@ func (iBuilder *IndexBuilder) DropSeries() error {
 		}
 
 		if e = idx.tb.RemoveItemsByDelTsidsFromParts(delTsids); e == nil {
-			deleteMergeSet.tb.RemoveDeletedPart()
+			// the caches still name the purged tsids (the series-key cache is also saved at close):
+			// once the deleted-tsid table is emptied nothing would subtract them any more
+			if e = idx.ClearCache(); e == nil {
+				deleteMergeSet.tb.RemoveDeletedPart()
+			}
 		}
 	}
 	return e
